@@ -141,7 +141,7 @@ def run(ctx):
     from ..core import pool_map
     from . import c18
     th = ctx.tier == "thorough"
-    ntr, nev = (160, 10) if th else (30, 6)
+    ntr, nev = (300, 10) if th else (60, 8)
     jobs = [(ctx.seed * 100003 + 17 * i + 5, nev) for i in range(ntr)]
     traces = pool_map(record_trace, jobs, chunksize=max(1, ntr // 32))
     can = canary(traces)
